@@ -161,6 +161,32 @@ fn sweep<N: Universe, Ty: EdgeType, S: BuildHasher>(cx: &mut Cx, g: &GraphMap<N,
     let mut got: Vec<((usize, usize), u32)> = g.edge_references().take(m.edges.len() + 2).map(|e| (m.key(idx(e.source()).unwrap_or(99), idx(e.target()).unwrap_or(99)), *e.weight())).collect();
     got.sort();
     cx.ensure(got == want, "GraphMap:edge_references", || format!("{:?}, model {:?}", got, want))?;
+    // the rest of the Iterator contract (size_hint, count, last, nth, fold, next_back) of every iterator handed out
+    {
+        use crate::iterck::{adapters, double_ended};
+        use petgraph::visit::{IntoNodeIdentifiers, IntoNodeReferences};
+        let capn = u.len() + 2;
+        let cape = m.edges.len() + 2;
+        let salt = m.edges.len() * 7 + m.nodes.len() * 3 + m.edges.values().next().map_or(0, |&w| w as usize);
+        let e3 = |(x, y, w): (N, N, &u32)| (idx(x), idx(y), *w);
+        adapters(cx, || g.nodes(), idx, capn, "GraphMap:nodes", salt)?;
+        double_ended(cx, || g.nodes(), idx, capn, "GraphMap:nodes", salt)?;
+        adapters(cx, || g.node_identifiers(), idx, capn, "GraphMap:node_identifiers", salt)?;
+        adapters(cx, || g.node_references(), |(n, _)| idx(n), capn, "GraphMap:node_references", salt)?;
+        adapters(cx, || g.all_edges(), e3, cape, "GraphMap:all_edges", salt)?;
+        double_ended(cx, || g.all_edges(), e3, cape, "GraphMap:all_edges", salt + 1)?;
+        adapters(cx, || g.edge_references(), e3, cape, "GraphMap:edge_references", salt)?;
+        for a in 0..u.len() {
+            if (a + salt) % 2 == 0 {
+                let cap = u.len() * 2 + 2;
+                adapters(cx, || g.neighbors(u[a]), idx, cap, "GraphMap:neighbors", salt)?;
+                adapters(cx, || g.neighbors_directed(u[a], Incoming), idx, cap, "GraphMap:neighbors_directed", salt)?;
+                adapters(cx, || g.edges(u[a]), e3, cap, "GraphMap:edges", salt)?;
+                adapters(cx, || g.edges_directed(u[a], Incoming), e3, cap, "GraphMap:edges_directed(Incoming)", salt)?;
+                adapters(cx, || g.edges_directed(u[a], Outgoing), e3, cap, "GraphMap:edges_directed(Outgoing)", salt)?;
+            }
+        }
+    }
     // compact numbering
     let n = m.nodes.len();
     cx.ensure(NodeIndexable::node_bound(g) == n && EdgeIndexable::edge_bound(g) == m.edges.len(), "GraphMap:bounds", || "node_bound/edge_bound != counts".into())?;
